@@ -1,4 +1,5 @@
 import PoryModel.Compile
+import PoryModel.AstDump
 /-
 Line-protocol driver for the model: one case per input line, one result per output line.
 See harness/README.md for the protocol.
@@ -99,6 +100,17 @@ def processLine (cache : String × Cfg) (line : String) : String × (String × C
       let (cfg, cache) := getCfg hc
       let env := if cfg.env.envErrors then cfg.env else lintEnv cfg.env
       (resultLine (compile env cfg.opts src.toList), cache)
+  | ["PARSE", hc, hs] =>
+    match hexDecode hs with
+    | none => ("BADINPUT", cache)
+    | some src =>
+      let (cfg, cache) := getCfg hc
+      let env := if cfg.env.envErrors then cfg.env else lintEnv cfg.env
+      match parseTokens env (Lexer.lexAll src.toList) with
+      | .ok prog => ("AST " ++ hexEncode (AstDump.program prog), cache)
+      | .error (.err e) => (resultLine (.parseError e), cache)
+      | .error .outOfFuel => (resultLine (.outOfFuel "parser"), cache)
+      | .error (.panic w) => (resultLine (.panic w), cache)
   | _ => ("BADLINE", cache)
 
 partial def loop (hIn : IO.FS.Stream) (hOut : IO.FS.Stream) (cache : String × Cfg) : IO Unit := do
